@@ -26,30 +26,14 @@ fn ref_loader_accepts(bytes: &[u8]) -> bool {
 }
 
 fn has_running_line(out: &[u8]) -> bool {
-    String::from_utf8_lossy(out).lines().any(|l| l.trim_start().starts_with("Running"))
+    let before = &crate::world_b::framing().before;
+    out.windows(before.len()).any(|w| w == &before[..])
 }
 
 /// Program output: what is printed between the `Running` line and the `Completed` message
 /// (which is glued to the output when the program does not end its last line).
 fn program_output(out: &[u8]) -> Vec<u8> {
-    let find = |hay: &[u8], needle: &[u8], from: usize| -> Option<usize> {
-        if needle.is_empty() || hay.len() < needle.len() {
-            return None;
-        }
-        (from..=hay.len() - needle.len()).find(|i| &hay[*i..*i + needle.len()] == needle)
-    };
-    let Some(running) = find(out, b"Running emitted binary\n", 0) else {
-        return Vec::new();
-    };
-    let start = running + b"Running emitted binary\n".len();
-    let marker = b"   Completed target ";
-    let mut end = out.len();
-    let mut from = start;
-    while let Some(at) = find(out, marker, from) {
-        end = at;
-        from = at + 1;
-    }
-    out[start..end].to_vec()
+    crate::world_b::program_output(out).unwrap_or_default()
 }
 
 fn run_file(scratch: &Scratch, file: &std::path::Path, stack: bool, minimal: bool, plan: Option<String>) -> Proc {
